@@ -1030,6 +1030,7 @@ def join_states(ctx, a, b, tag, widen=False, thresholds=()):
         for s_ in anchors:
             if s_ != t:
                 cand.add((t, s_))
+                cand.add((s_, t))       # both directions: `len - counter <= -1` is as much part of len == counter - 1 as its converse
     if len(changed_t) <= 14:
         for t1 in changed_t:
             for t2 in changed_t:
